@@ -38,7 +38,7 @@ TEXT = {
               "(overflow-checks, debug-assertions) and a release build, and every event is validated by TLC. A panic or a "
               "profile-dependent answer is an unexplained event.",
         note=COMMON_NOTE,
-        technique="TLC model checking of the order (MC_Cmp) + TLC-generated pairs replayed on the crate + TLA+ trace validation, two build profiles",
+        technique="TLC model checking of the order (MC_Cmp), of the equality loop (MC_EqWords) and of the ordering pipeline as a stage-by-stage state machine (MC_CmpMech) + TLC-generated pairs replayed on the crate + TLA+ trace validation, two build profiles",
         ref="DESIGN.md section 7 C02"),
     "C03": dict(
         level="MC_Cmp checks at design level that the hash mechanism anchored in the code (decimal string, trim up to `scale` "
@@ -90,7 +90,7 @@ TEXT = {
               "every call; the driver adds decimals to 700/3000 digits with ties, near ties, all-nines carries, targets left of the "
               "leading digit, zeros, both signs, all 4200 round_pair arguments and round_u32.",
         note=COMMON_NOTE,
-        technique="TLC model checking (mechanism vs declaration) + TLC-generated exhaustive small scope replayed on the crate + TLA+ trace validation",
+        technique="TLC model checking (mechanism vs declaration) + TLC-generated exhaustive small scope and simulated mixed programs replayed on the crate + TLA+ trace validation",
         ref="DESIGN.md section 7 C06"),
     "C07": dict(
         level="Same MC_Round model (precision rounding = scale rounding at scale + p - digits; an added digit only on an all-nines "
@@ -101,7 +101,7 @@ TEXT = {
               "scales at the i64 guards (ZInt arithmetic in the specification: the documented panic is the only alternative to "
               "the right answer).",
         note=COMMON_NOTE,
-        technique="TLC model checking + TLC-generated exhaustive small scope replayed on the crate + TLA+ trace validation",
+        technique="TLC model checking + TLC-generated exhaustive small scope and simulated mixed programs replayed on the crate + TLA+ trace validation",
         ref="DESIGN.md section 7 C07"),
     "C08": dict(
         level="TLC-printed small operand pairs are divided in every applicable spelling. The specification never divides to judge a quotient: r is accepted iff r*b = a exactly, or r has the sign of a/b, at "
@@ -115,7 +115,7 @@ TEXT = {
               "Driver: quotients built to terminate, tie (..5 at digit P+1, generated inside the digit loop) or nearly tie around "
               "the P-th digit, divisors 2^i 5^j, operands to 500/2000 digits, |a| << |b| and >> |b|, equal unscaled integers.",
         note=COMMON_NOTE + " Float DIVISORS and `1 / x` (the reciprocal, C12) are judged by their own relations.",
-        technique="TLC model checking of the division mechanism against the relation (MC_Rem) + relational, stateful TLA+ trace validation",
+        technique="TLC model checking of the division mechanism against the relation (MC_Rem) + simulated mixed programs replayed on the crate + relational, stateful TLA+ trace validation",
         ref="DESIGN.md section 7 C08"),
     "C09": dict(
         level="MC_Rem (TLC, exhaustive small scope with scale gaps up to 130) shows the remainder operator of the specification "
@@ -125,7 +125,7 @@ TEXT = {
               "same operands - each re-implements the alignment - for every gap 0..45, gaps around 256, 512, 590, 1000, 4096, "
               "10^4 in both directions, operands to 400/2000 digits, exact multiples, equal operands; zero divisors must panic.",
         note=COMMON_NOTE,
-        technique="TLC model checking of the remainder identity (MC_Rem) + TLA+ trace validation (functional)",
+        technique="TLC model checking of the remainder identity (MC_Rem) + simulated mixed programs replayed on the crate + TLA+ trace validation (functional)",
         ref="DESIGN.md section 7 C09"),
     "C10": dict(
         level="MC_Roots (TLC, exhaustive small scope) shows the relation below accepts exactly one grid point per (x, p, mode) - the one "
@@ -139,14 +139,14 @@ TEXT = {
               "7 modes, sqrt / sqrt_with_context / BigDecimalRef forms (abs, copysign), negative => None, zero => zero, up to "
               "500/2000 digits.",
         note=COMMON_NOTE,
-        technique="relational TLA+ trace validation with TLC (squares and comparisons only)",
+        technique="TLC model checking of the relation and of the transcribed sqrt routine (MC_Roots) + simulated mixed programs replayed + relational TLA+ trace validation with TLC (squares and comparisons only)",
         ref="DESIGN.md section 7 C10"),
     "C11": dict(
         level="MC_Roots as for C10 (both signs). Same relational scheme with cubes (E = floor(adj/3), (2f+u)^3 vs 8x), Floor/Ceiling interpreted on the signed value so "
               "that the mirror law cbrt(-x, m) = -cbrt(x, mirror(m)) is part of the relation; all residues of the scale mod 3, "
               "perfect cubes +-1 far unit, midpoint cubes, inputs longer than 3(p+4) digits, both signs, p in 1..150/160.",
         note=COMMON_NOTE,
-        technique="relational TLA+ trace validation with TLC (cubes and comparisons only)",
+        technique="TLC model checking of the relation and of the transcribed cbrt routine (MC_Roots) + simulated mixed programs replayed + relational TLA+ trace validation with TLC (cubes and comparisons only)",
         ref="DESIGN.md section 7 C11"),
     "C12": dict(
         level="MC_Roots checks the relation against native division (floor and ceiling acceptable, only the exact value when 1/x "
@@ -156,9 +156,13 @@ TEXT = {
               "unexplained event (termination). Driver: all 2^i 5^j (i <= 24/60, j <= 12/30) at p = exact length + {-1,0,1,2,3,6} "
               "under every mode, 99..9 / 100..01 / powers of ten at p in {1..5, 100}, random x to 400/1500 digits with p in 1..150, "
               "scales to +-2000, bit lengths around the f64 underflow of the initial guess, `1 / x` with primitive ones. (The early-stop "
-              "defect at p <= 3 this check found is repaired in /repo; its former deviation no longer exists.)",
+              "defect at p <= 3 this check found is repaired in /repo; its former deviation no longer exists.) "
+              "MC_Inverse is a state machine of the routine itself (exact binary64 guess, one action per Newton step, convergence test, final rounding): "
+              "guess in the basin, exact quadratic error identity, termination by the loop's own test (invariant and liveness under weak fairness), result within the relation - "
+              "for n <= 400/3000, p <= 4/6, all modes; its behaviours are replayed on the crate with digit-for-digit comparison (informational); the variant as shipped "
+              "violates the relation (expected-violation run, thorough). Mixed programs (Gen_Mixed.cfg) with inverse steps as hard verdicts.",
         note=COMMON_NOTE,
-        technique="TLC model checking of the relation (MC_Roots) + relational, stateful TLA+ trace validation",
+        technique="TLC model checking of the relation (MC_Roots) and of the routine as a state machine (MC_Inverse, safety + liveness) + replay of its behaviours + relational, stateful TLA+ trace validation",
         ref="DESIGN.md section 7 C12"),
     "C13": dict(
         level="MC_Exp checks the enclosure itself (L <= U, width, nesting, 50 known digits of e, acceptance / rejection). The specification computes, in TLA+ fixed-point decimal arithmetic with directed rounding, a rigorous enclosure [L, U] "
@@ -169,7 +173,7 @@ TEXT = {
               "with magnitudes 1e-60..1e2 (quick) / 1e3 (thorough), truncations of k*ln 10 (+-1 in the last place) where e^x "
               "crosses a power of ten. |x| <= 1000 is sampled (30 arguments, thorough), not swept.",
         note=COMMON_NOTE + " The enclosure operators are part of the specification (spec/Exp.tla).",
-        technique="TLA+ trace validation with TLC against an interval enclosure computed by the specification",
+        technique="TLC model checking of exp as a state machine (MC_ExpMech, safety + liveness) with replay of its behaviours + TLA+ trace validation with TLC against an interval enclosure computed by the specification",
         ref="DESIGN.md section 7 C13"),
     "C14": dict(
         level="MC_Floats (TLC, exhaustive) checks the decoder against the native formula on all 65536 binary16 patterns. The specification decodes IEEE-754 bit patterns (sign / exponent field / mantissa split by long division, subnormals, "
@@ -246,7 +250,7 @@ TEXT = {
               "resynchronising after each result so that one defect cannot hide the next. The harness adds 500 / 6000 programs "
               "with operands to 150/400 digits and primitive MIN/MAX operands.",
         note=COMMON_NOTE,
-        technique="TLC model checking of the decimal machine (MC_Programs) + TLC -simulate generated programs replayed on the crate + stateful TLA+ trace validation",
+        technique="TLC model checking of the decimal machine with exact and rounding steps (MC_Programs) + TLC -simulate generated exact and mixed programs replayed on the crate + stateful TLA+ trace validation",
         ref="DESIGN.md section 7 C19"),
     "C20": dict(
         level="The harness is rebuilt (own target directory) under 4 (quick) / 20 (thorough) build-time configurations drawn from "
@@ -260,7 +264,7 @@ TEXT = {
               "digits, ties under the configured mode, values below one unit of the last printed place, Display at threshold "
               "+-3 zeros, integer padding at the limit +-2. TLC validates every event.",
         note=COMMON_NOTE + " Rebuilding relies on cargo re-running the crate's build.rs when the RUST_BIGDECIMAL_* variables change (checked: the rebuilt harness must report the requested configuration).",
-        technique="TLA+ trace validation with TLC where the specification's configuration variable is bound by the trace; one rebuilt harness per configuration",
+        technique="TLA+ trace validation with TLC where the specification's configuration variable is bound by the trace; one rebuilt harness per configuration; the exp state machine (MC_ExpMech) model-checked per configured precision and replayed on that build",
         ref="DESIGN.md section 7 C20"),
 }
 NA = {}
